@@ -263,7 +263,7 @@ class NestedJsonRenderer(Renderer):
                     if isinstance(decoded_node, FixedReplicationNode):
                         n_repeats = decoded_node.descriptor.n_repeats
                     else:
-                        n_repeats = decoded_values[decoded_node.factor.index]
+                        n_repeats = int(decoded_values[decoded_node.factor.index])
                         n['factor'] = self._render_template_data_value_node(
                             decoded_node.factor, decoded_descriptors, decoded_values,
                         )
@@ -386,7 +386,7 @@ class NestedTextRenderer(Renderer):
                     if isinstance(decoded_node, FixedReplicationNode):
                         n_repeats = decoded_node.descriptor.n_repeats
                     else:
-                        n_repeats = decoded_values[decoded_node.factor.index]
+                        n_repeats = int(decoded_values[decoded_node.factor.index])
                         ret.extend(
                             self._render_template_data_value_node(
                                 decoded_node.factor, decoded_descriptors, decoded_values,
